@@ -211,6 +211,10 @@ Definition si_close (a b : uq) (x y base : Q) : bool :=
 Definition qf (x : float) : Q := match UnitsRun.Q_of_float x with Some q => q | None => 0 end.
 Definition finite (x : float) : bool := match UnitsRun.Q_of_float x with Some _ => true | None => false end.
 
+Definition is_nan (x : float) : bool := String.eqb (show_float x) "nan".
+(* w is the same infinity as x, or both are NaN *)
+Definition nonfinite_same (x w : float) : bool := if is_nan x then is_nan w else feq w x.
+
 (* judge one operation: [s] the specified feature list (name -> feature, position = slot), [pre] the state
    vector before the operation as the implementation printed it, [o] what the implementation returned *)
 Definition judge (s : entries float) (pre : list float) (p : op) (o : obs) : string :=
@@ -266,6 +270,10 @@ Definition judge (s : entries float) (pre : list float) (p : op) (o : obs) : str
       unitful n u (fun i fu v kin kout =>
         match r, nth_error post i with
         | Ok VNone, Some w =>
+            if negb (finite x) then
+              (* a write is a write: an infinity is stored as that infinity (every factor is positive), NaN as NaN *)
+              verdict o [("only its own slot", frame_ok i pre post); ("a non-finite value is stored, not dropped", nonfinite_same x w)]
+            else
             verdict o [("only its own slot", frame_ok i pre post); ("finite", finite w);
                        ("same unit: stored as given", negb (uq_same u fu) || feq w x);
                        ("stored converted by the table factor", close eps (Qabs (qf x * kin)) (qf w) (qf x * kin));
@@ -276,6 +284,10 @@ Definition judge (s : entries float) (pre : list float) (p : op) (o : obs) : str
       unitful n u (fun i fu v kin kout =>
         match r, nth_error post i with
         | Ok VNone, Some w =>
+            if negb (finite x) && finite v then
+              (* finite + infinity = that infinity, anything + NaN = NaN *)
+              verdict o [("only its own slot", frame_ok i pre post); ("a non-finite sum is stored, not dropped", nonfinite_same x w)]
+            else
             verdict o [("only its own slot", frame_ok i pre post); ("finite", finite w);
                        ("a zero increment leaves the value as it is", negb (Qeq_bool (qf x) 0) || Qeq_bool (qf w) (qf v));
                        ("slot + converted increment", close eps (Qabs (qf v) + Qabs (qf x * kin)) (qf w) (qf v + qf x * kin));
